@@ -338,7 +338,7 @@ func runC06(ctx *Ctx, idx int) {
 
 func init() {
 	register(&CheckDef{
-		ID: "C06", Level: "exploration", HangIsViolation: true, HangSeconds: 300,
+		ID: "C06", Level: "exploration", HangIsViolation: true, HangSeconds: 300, MemoryIsViolation: true,
 		Rule:     "case = one archived fixture (97, with the testkeys key lists), or a generated (key list, fixed-size value list) serialised by the writer models into each of 12 historical layouts (three-section 0.5.0 / 0.5.1-3 / 0.5.4-6 / 0.5.7 / 0.5.8 / 0.5.9; 0.5.10 and 0.5.11 each nopref/innpref/allpref); oracle: Unmarshal returns no error and does not panic; Get/GetID on retained keys, RangeGet on every key, Search neighbours, Stat().KeyCnt equal the reference model; totality/consistency on Q(K); allpref additionally the exact-map battery and scans; 0.5.10/0.5.11 instances answer identically (false positives included) to the fresh trie they were derived from; non-trivial = at least 2 retained keys; distinct by hash of keys and values",
 		NumCases: func(tier string) int { return len(listFixtures()) + c06NumGen(tier) },
 		Run:      runC06,
